@@ -51,12 +51,24 @@ def tree_of(path):
         return {"<error>": str(ex)}
 
 
-def classify(base, ev, old_end):
+class _Tagged(list):
+    """protocol letters; .at[i] is the index (in the raw trace) of the event that produced letter i"""
+    def __init__(self):
+        super().__init__()
+        self.at = []
+        self.cur = -1
+
+    def append(self, x):
+        super().append(x)
+        self.at.append(self.cur)
+
+
+def classify(base, ev, old_end, where=None):
     """real write trace -> protocol events (E sb write with error flag set, C sb write flag clear,
     O other change inside the old filesystem extent, N other change beyond it, F sync)"""
     disk = bytearray(base)
-    s = []
-    for e in ev:
+    s = _Tagged()
+    for s.cur, e in enumerate(ev):
         if e[0] == "W":
             off, data = e[1], e[2]
             if off + len(data) > len(disk):
@@ -75,6 +87,8 @@ def classify(base, ev, old_end):
             s.append("O" if e[1] < old_end else "N")
         elif e[0] == "F":
             s.append("F")
+    if where is not None:
+        where.extend(s.at)
     return "".join(s)
 
 
@@ -186,7 +200,12 @@ def one_case(src, mexe, idx, seed, tier):
         if rc2 != 0:
             problems.append("e2fsck -fn exits %d after resize: %s" % (rc2, out2[-300:].replace("\n", " | ")))
         # ---- crash protocol on the real write trace
-        evs = classify(data0, ev, fs0.blocks_count * fs0.bs)
+        at = []
+        evs = classify(data0, ev, fs0.blocks_count * fs0.bs, at)
+        # the final rewrite of the primary superblock is a run of small writes (write_primary_superblock writes only the
+        # changed fields, lowest offset first): the property speaks of the points "until the final rewrite", so the
+        # states inside that run are not sampled
+        final_rewrite = at[evs.rindex("E") + 1 + evs[evs.rindex("E") + 1:].index("C")] if "E" in evs and "C" in evs[evs.rindex("E") + 1:] else len(ev)
         stat["trace"] = evs[:40] + ("..." if len(evs) > 80 else "") + evs[-40:] if len(evs) > 80 else evs
         pa = ask(mexe, "P " + evs)
         if "O" in evs and pa != "1":
@@ -197,7 +216,7 @@ def one_case(src, mexe, idx, seed, tier):
                 problems.append("first modifying write is not preceded by a flushed superblock carrying the error flag")
         # ---- sampled crash images must be repairable and flagged
         nsamp = 2 if tier == "quick" else 6
-        widx = [i for i, e in enumerate(ev) if e[0] in ("W", "A")]
+        widx = [i for i, e in enumerate(ev) if e[0] in ("W", "A") and i < final_rewrite]
         if "O" in evs and len(widx) > 4:
             for k in sorted(r.sample(widx[2:-1], min(nsamp, len(widx) - 3))):
                 d = bytearray(data0)
@@ -216,8 +235,10 @@ def one_case(src, mexe, idx, seed, tier):
                 rcn, _ = e2v.sh([os.path.join(src, "e2fsck/e2fsck"), "-n", p], env=e2v.tool_env(src), timeout=300)
                 if rcn == 0 and not flagged:
                     tcr = tree_of(p)
-                    if tcr != t0 or c02.judge_consistency(p):
-                        problems.append("crash after write %d: filesystem passes an unforced e2fsck -n without the error flag but is damaged" % k)
+                    bad = c02.judge_consistency(p)
+                    if tcr != t0 or bad:
+                        problems.append("crash after write %d: filesystem passes an unforced e2fsck -n without the error flag but is damaged (%s)" % (
+                            k, "; ".join(bad[:3]) if bad else "file tree differs"))
                 os.unlink(p)
                 stat["crash_samples"] = stat.get("crash_samples", 0) + 1
     elif rc == 0:
